@@ -156,7 +156,7 @@ func runC12(c *Ctx) {
 	// same CER retransmitted
 	{
 		key := fname(hs) + ":same-cer"
-		recv := rl.write.Call.Args[0]
+		recv := rl.msgArg()
 		inLoop := false
 		if in, ok := recv.(ssa.Instruction); ok && rl.loop.Blocks[in.Block()] {
 			inLoop = true
@@ -187,7 +187,7 @@ func runC12(c *Ctx) {
 	}
 
 	// ---- R5 ----
-	regFirst := flow.Dominates(reg, rl.write)
+	regFirst := flow.Dominates(reg, rl.writeAt())
 	if reg.Parent() != hs {
 		// pipeline form: the registration (helper call) precedes every call of the loop helper in their caller
 		regFirst = false
@@ -219,7 +219,7 @@ func runC12(c *Ctx) {
 // c12CER: content of the CER builder.
 func (c *Ctx) c12CER(hs *ssa.Function, rl *retransLoop) {
 	r := c.R
-	call, ok := flow.Peel(c.up(rl.write.Call.Args[0])).(*ssa.Call)
+	call, ok := flow.Peel(c.up(rl.msgArg())).(*ssa.Call)
 	if !ok {
 		r.Undecided("R4", fname(hs)+":cer-builder", c.pos(rl.write), "the written message is not the result of a builder call")
 		return
